@@ -70,7 +70,7 @@ def value(p, tok):
     if p == "l":
         return {"empty": [], "nested": [1, [2, "a"]], "onetuple": [(3,)], "withinf": [float("inf"), -1], "withninf": [float("-inf"), (float("-inf"),)]}[tok]
     if p == "t":
-        return {"none": None, "pair": (1, 2), "one": (5,)}[tok]
+        return {"none": None, "pair": (1, 2), "one": (5,), "eset": set(), "set1": {3}}[tok]
     if p == "d":
         return {"default": {"k": 1, "m": 2}, "empty": {}, "subset": {"k": 1}, "changed": {"k": 1, "m": 3}, "superset": {"k": 1, "m": 2, "z": 0}}[tok]
     if p == "sub":
